@@ -30,6 +30,7 @@ type Target struct {
 	Name  string // display name
 	Spec  *FuncSpec
 	Lemma *LemmaInfo
+	SplitVal *int64
 }
 
 type TargetResult struct {
@@ -142,6 +143,30 @@ func cmdCheck(args []string) int {
 	smtDir := filepath.Join(scratch, "smt")
 	os.MkdirAll(smtDir, 0o755)
 	var results []*TargetResult
+	// a split clause multiplies a target: one run per value of the named parameter
+	{
+		var tt []Target
+		for _, t := range targets {
+			if t.Spec != nil && t.Spec.SplitParam != "" {
+				for v := t.Spec.SplitLo; v <= t.Spec.SplitHi; v++ {
+					t2 := t
+					vv := v
+					t2.SplitVal = &vv
+					tt = append(tt, t2)
+				}
+			} else if t.Lemma != nil && t.Lemma.SplitParam != "" {
+				for v := t.Lemma.SplitLo; v <= t.Lemma.SplitHi; v++ {
+					t2 := t
+					vv := v
+					t2.SplitVal = &vv
+					tt = append(tt, t2)
+				}
+			} else {
+				tt = append(tt, t)
+			}
+		}
+		targets = tt
+	}
 	for _, t := range targets {
 		r := runTarget(p, t, 0)
 		if t.Spec != nil && r.Err == "" && r.Exec.numReturns > 1 && r.Exec.numReturns <= 16 {
@@ -196,6 +221,18 @@ func cmdCheck(args []string) int {
 		}
 		results = append(results, tr)
 	}
+	// bounded stand-ins (native, labelled bounded)
+	var boundedNotes []string
+	if *only == "" {
+		if bf := findBounded(p, *prop); len(bf) > 0 {
+			tr := &TargetResult{Target: "bounded-stand-ins", Exec: NewExec(p), Obls: runBounded(p, bf, *tier, seed)}
+			for _, f := range bf {
+				boundedNotes = append(boundedNotes, f.Pkg+"."+f.Name+": "+f.Bound)
+			}
+			results = append(results, tr)
+		}
+	}
+	boundedList = boundedNotes
 	// discharge
 	var wg sync.WaitGroup
 	var solverSecs float64
@@ -384,6 +421,10 @@ func runTarget(p *Loaded, t Target, selRet int) (res *TargetResult) {
 			}
 		}
 		x.probeOpaque = res.Opaque
+		x.forceInline = map[string]bool{}
+		for _, n := range t.Spec.Inlines {
+			x.forceInline[n] = true
+		}
 		x.specOverride = map[*ssa.Function]*FuncSpec{target: t.Spec}
 		x.calleeMode = append(x.calleeMode, &calleeCtx{fn: target, prove: true})
 	} else {
@@ -396,12 +437,22 @@ func runTarget(p *Loaded, t Target, selRet int) (res *TargetResult) {
 		for _, n := range t.Lemma.MayNil {
 			x.mayNil[n] = true
 		}
+		x.forceInline = map[string]bool{}
+		for _, n := range t.Lemma.Inlines {
+			x.forceInline[n] = true
+		}
 		for k, v := range t.Lemma.Shape {
 			x.shapeLen[strings.TrimLeft(k, "*")] = v
 		}
 	}
 	args := make([]Value, len(h.Params))
 	for i, prm := range h.Params {
+		if t.SplitVal != nil && (t.Spec != nil && prm.Name() == t.Spec.SplitParam || t.Lemma != nil && prm.Name() == t.Lemma.SplitParam) {
+			if srt, ok := scalarSort(prm.Type()); ok && srt.K == SBV {
+				args[i] = Scalar{BVI(*t.SplitVal, srt.W)}
+				continue
+			}
+		}
 		args[i] = x.freshValue(prm.Name(), prm.Type(), 3)
 	}
 	x.callFunction(h, args, nil, true)
@@ -431,6 +482,7 @@ func runTarget(p *Loaded, t Target, selRet int) (res *TargetResult) {
 // ---------------- reporting ----------------
 
 var replayDirOverride string
+var boundedList []string
 
 type knownFinding struct {
 	Prop, Obl, What string
@@ -544,9 +596,20 @@ func report(p *Loaded, verif, prop, tier string, seed int, pc *PropConfig, resul
 		names = append(names, n)
 	}
 	sort.Strings(names)
+	boundedOK, boundedTotal := 0, 0
 	for _, n := range names {
 		os2 := byName[n]
-		total++
+		if os2[0].Class == "B" {
+			// bounded stand-ins are reported apart and never counted among the proof obligations
+			boundedTotal++
+			if os2[0].Status == "proved" {
+				boundedOK++
+				recs = append(recs, oblRec{Name: n, Class: "B", Status: "bounded-ok", By: os2[0].Result.Solver})
+				continue
+			}
+		} else {
+			total++
+		}
 		st := "proved"
 		by := "simplifier"
 		secs := 0.0
@@ -566,7 +629,9 @@ func report(p *Loaded, verif, prop, tier string, seed int, pc *PropConfig, resul
 			}
 		}
 		if st == "proved" {
-			discharged++
+			if os2[0].Class != "B" {
+				discharged++
+			}
 		} else {
 			failures = append(failures, n)
 			if kf := isKnown(n); kf != nil {
@@ -695,6 +760,9 @@ func report(p *Loaded, verif, prop, tier string, seed int, pc *PropConfig, resul
 			"known_findings_hit":         knownLines,
 			"baseline_missing":           missing,
 			"baseline_not_generated":     notGenerated,
+			"bounded_stand_ins":          boundedList,
+			"bounded_checks_run":         boundedTotal,
+			"bounded_checks_ok":          boundedOK,
 			"integer_semantics":          "bit-vectors of the Go width with wrap-around; arithmetic on Go int additionally carries R (no-wrap) obligations",
 			"unbound_contracts":          p.unbound,
 		},
@@ -716,6 +784,9 @@ func report(p *Loaded, verif, prop, tier string, seed int, pc *PropConfig, resul
 	}
 	fmt.Printf("govc: property %s tier %s: %d obligations, %d discharged, %d solver queries, %.1fs wall (%.1fs load, %.1fs solver)\n",
 		prop, tier, total, discharged, nq, wall, tLoad, solverSecs)
+	if boundedTotal > 0 {
+		fmt.Printf("govc: property %s: %d bounded stand-ins run natively, %d ok (labelled bounded, not counted as proved)\n", prop, boundedTotal, boundedOK)
+	}
 	if verbose {
 		for _, r := range recs {
 			fmt.Printf("  %-8s %-10s %6.2fs %s\n", r.Status, r.By, r.Secs, r.Name)
